@@ -115,7 +115,19 @@ func gen(c *harness.C) []harness.Case {
 		c.Note("c14-overlay", "shim overlay not active: scheduling points missing, exploration is vacuous")
 	}
 	var cases []harness.Case
+	only := strings.Split(os.Getenv("VERIF_SCENARIOS"), ",")
 	for _, sc := range boxlib.Scenarios(c.Thorough()) {
+		if os.Getenv("VERIF_SCENARIOS") != "" {
+			keep := false
+			for _, pre := range only {
+				if pre != "" && strings.HasPrefix(sc.Name, pre) {
+					keep = true
+				}
+			}
+			if !keep {
+				continue
+			}
+		}
 		cases = append(cases, scCase(sc, 0, 0, true))
 		root := &explore.Recorder{}
 		boxlib.Run(c, sc, root)
@@ -128,4 +140,15 @@ func gen(c *harness.C) []harness.Case {
 
 func overlayActive() bool { return os.Getenv("VERIF_OVERLAY_ACTIVE") != "0" }
 
-func TestCheck(t *testing.T) { harness.Main(t, "C14", gen) }
+func TestCheck(t *testing.T) {
+	harness.Main(t, "C14", func(c *harness.C) []harness.Case {
+		cs := gen(c)
+		// two builds of this package inside one check must not share case names
+		if pre := os.Getenv("VERIF_CASE_PREFIX"); pre != "" {
+			for i := range cs {
+				cs[i].ID = pre + cs[i].ID
+			}
+		}
+		return cs
+	})
+}
